@@ -1,6 +1,7 @@
 import TenpyModel.Util.J
 import TenpyModel.C19.Variants
 import TenpyModel.C19.Ext
+import TenpyModel.C19.ExtBC
 open Lean TenpyModel TenpyModel.J
 open TenpyModel.C19
 
@@ -220,8 +221,38 @@ def parseDict (j : Json) : Except String Ext.PairsDict :=
     | [k, v] => pure (← getStr k, ← listOf parseCoup v)
     | _ => throw "bad dict entry") j
 
+def parseBCEntry (j : Json) : Except String Ext.BCEntry :=
+  match j with
+  | Json.str s => pure (.str s)
+  | _ => do pure (.shift (← getInt j))
+
+def bcEntryJ : Ext.BCEntry → Json
+  | .str s => Json.str s
+  | .shift n => Json.num (JsonNumber.fromInt n)
+
+def bcStateJ : Option Ext.BCState → Json
+  | none => Json.str "error"
+  | some st => Json.arr #[Json.arr (st.bc.map Json.bool).toArray,
+      match st.bcShift with | none => Json.null | some sh => ofIntList sh]
+
+def handleBC (j : Json) : Except String Json := do
+  let dim ← getNat (← field j "dim")
+  let finite ← getBool (← field j "finite")
+  let a ← field j "arg"
+  let arg : Ext.BCArg ← match a with
+    | Json.str s => pure (Ext.BCArg.single s)
+    | _ => do pure (Ext.BCArg.list (← listOf parseBCEntry a))
+  let st := Ext.bcSetter dim arg
+  let get : Json := match st with
+    | none => Json.null
+    | some st => match Ext.bcGetter st with
+      | none => Json.str "error"
+      | some l => ofList bcEntryJ l
+  return obj [("r", obj [("set", bcStateJ st), ("get", get), ("init", bcStateJ (Ext.initBC dim arg finite))])]
+
 def handleExt (op : String) (j : Json) : Except String Json := do
-  if op == "msp" then
+  if op == "bc" then handleBC j
+  else if op == "msp" then
     let names ← listOf getStr (← field j "names")
     let pairs ← parseDict (← field j "pairs")
     let simpleLu ← getNat (← field j "simpleLu")
